@@ -19,7 +19,7 @@ EXPLANATION = (
     "chunk before rebuilding; in tick_action every arm that sends a control packet or flushes passes send.set first; flush, "
     "send_connless and new_accept_token arm the send timer; needs_tick returns `inactive` outright only for "
     "Unconnected|Disconnected and otherwise min(send, oldest resend timer); Timestamp's OptOrd is plain cmp; Net::needs_tick is the "
-    "min over peers.  R4 (resend request plumbing): request_resend is set on the non-Current edge of the sequence update and "
+    "min over peers.  R3b: Net's Tick iterator ticks every peer (shared with C20 R6).  R2b: can_fit_chunk bounds the 8-bit chunk counter (shared with C04 B7).  R4 (resend request plumbing): request_resend is set on the non-Current edge of the sequence update and "
     "feed_impl reaches resend on the request_resend && Online edge."
 )
 ASSUMPTIONS = [
@@ -43,6 +43,18 @@ def run(ctx, rep):
         timers(prog, rep, ver, mod)
         plumbing(prog, rep, ver, mod)
     net_min(prog, rep)
+    # a timer armed on a peer is of no use if Net::tick does not reach that peer: the Tick iterator visits every peer
+    # (shared with C20 R6), and the chunk counter cannot overflow while queueing (shared with C04 B7: the call would not return)
+    from .C20 import tick as tick_every_peer
+    from .C04 import chunk_count
+    from ..report import Report
+    sub = Report("C02", rep.tier, rep.seed)
+    tick_every_peer(prog, sub)
+    for ver, mod in (("0.6", "libtw2_net::connection"), ("0.7", "libtw2_net::connection7")):
+        chunk_count(prog, sub, ver, mod)
+    for o in sub.obs:
+        tail = o["key"].split(" | ", 2)[2]
+        rep.ob("R3b-every-peer-ticked" if o["rule"].startswith("R6") else "R2b-chunk-counter-bounded", tail, o["ok"], o["detail"], o["at"])
 
 
 def resend_progress(ctx, rep, ver, mod, pmod):
